@@ -1,5 +1,7 @@
 // Non-template part of the harness (compiled once per run, no rapidcheck, no Au).
 #include "auv.hh"
+#include <csignal>
+#include <unistd.h>
 extern "C" void __sanitizer_set_death_callback(void (*)(void)) __attribute__((weak));
 namespace auv {
 Crumb g_crumb = {"", ""};
@@ -8,7 +10,15 @@ static void on_death() {
     fprintf(stdout, "AUVDEATH {\"inst\":\"%s\",\"what\":\"%s\"}\n", g_crumb.inst, g_crumb.what);
     fflush(stdout);
 }
+static void on_signal(int sig) {
+    char buf[400];
+    int n = snprintf(buf, sizeof buf, "\nAUVDEATH {\"inst\":\"%s\",\"what\":\"%s\",\"signal\":%d}\n", g_crumb.inst, g_crumb.what, sig);
+    if (n > 0) { ssize_t r = write(1, buf, size_t(n)); (void)r; }
+    _exit(128 + sig);
+}
 void install_death_callback() {
+    // sanitizers are run with abort_on_error=1: the abort lands here, so the case being evaluated is always reported
+    signal(SIGABRT, on_signal); signal(SIGFPE, on_signal); signal(SIGILL, on_signal);
     if (__sanitizer_set_death_callback) __sanitizer_set_death_callback(on_death);
 }
 static std::string esc(const std::string &s) {
